@@ -23,6 +23,9 @@ type FS struct {
 	Handles int64
 	// Creates lists every name passed to Create, in order (C13).
 	Creates []string
+	// SyncDone counts completed (successful) Sync calls: what is durable, for the C06 clause
+	// "an entry becomes visible only once its batch is durable".
+	SyncDone int64
 }
 
 type lfile struct {
@@ -290,6 +293,7 @@ func (h *handle) Sync() error {
 		}
 		return ErrInjected
 	}
+	defer atomic.AddInt64(&h.fs.SyncDone, 1)
 	if h.created && atomic.SwapInt32(&h.dirSynced, 1) == 0 {
 		// first Sync of a file returned by Create also makes the directory
 		// entry durable (the contract fs.File.Sync is meant to implement).
